@@ -28,8 +28,8 @@ CONSTANTS NF,          \* number of listener functions
           BadRm,       \* targets on which a Remove of a not-registered (target, fn) is attempted
           NShards, Shard,
           JoinedXoBroken   \* TRUE = the pinned tree: exec_once on a _JoinedListener raises AttributeError (see DoExecOnce)
-VARIABLES st, last, prev      \* last = label and expected result of the step just taken, prev = the state it was taken from
-vars == <<st, last, prev>>    \* (both hidden by VIEW: they do not multiply states)
+VARIABLES st, last, prev, n   \* last = label and expected result of the step just taken, prev = the state it was taken from,
+vars == <<st, last, prev, n>> \* n = steps taken (all three hidden by VIEW: they do not multiply states)
 Fns == 1..NF
 Classes == 1..4
 Insts == 1..2
@@ -177,6 +177,7 @@ NoOpt == <<FALSE, FALSE, FALSE, FALSE>>
 Step(a, t, f, ins, sty, m, res) ==
   /\ st' = res.st
   /\ prev' = st
+  /\ n' = n + 1
   /\ last' = [a |-> a, t |-> t, f |-> f, ins |-> ins, prop |-> sty[1], once |-> sty[2], named |-> sty[3],
               retval |-> sty[4], m |-> m, ret |-> res.ret]
 TargetExists(s, t) == IF t < 10 THEN Exists(s, t) ELSE s.inst[t - 10].cls # 0
@@ -205,9 +206,13 @@ Update == \E dst \in Insts, src \in Insts, op \in BOOLEAN :
                  /\ dst # src /\ ~st.upd /\ st.inst[dst].cls # 0 /\ st.inst[src].cls # 0
                  /\ st.inst[dst].join = 0 /\ st.inst[src].join = 0
                  /\ Step("Update", 10 + dst, src, op, NoOpt, "", DoUpdate(st, dst, src, op))
-Init == st = InitSt /\ last = [a |-> "init"] /\ prev = InitSt
+Init == st = InitSt /\ last = [a |-> "init"] /\ prev = InitSt /\ n = 0
 Next == Listen \/ Remove \/ RemoveBad \/ CreateSubclass \/ NewInstance \/ Dispatch \/ ExecOnce \/ Update
 Spec == Init /\ [][Next]_vars
+\* For the single-worker edge dump: breadth-first search with VIEW keeps the first (= shortest) arrival at a state, so n is its
+\* BFS depth and this guard explores exactly what CONSTRAINT Depth does, without computing the successors of the frontier
+\* only to throw them away (TLCGet("level") inside an action is far slower).
+NextDump == n < MaxDepth - 1 /\ Next
 View == st
 Depth == TLCGet("level") <= MaxDepth
 \* what the binding compares after every step in addition to the mechanism state itself
